@@ -30,6 +30,7 @@ static const char *vi_more[] = {
 	":se hist=3\n", ":se ru=0\n", ":se ru=7\n", ":se shape\n", ":se noshape\n", ":se xyz\n", ":se\n", ":se wa\n", ":se aw\n",
 	":cm fa\n", ":cm! en\n", ":cm\n", ":ft c\n", ":ft\n", ":ta foo\n", ":tn\n", ":tp\n", ":po\n", ":tf\n", ":ec hello\n", ":ec %\n", ":ec #\n", ":e %%%%\n", ":e =x\n",
 	":g/a/g/a/g/a/g/a/g/a/g/a/g/a/g/a/g/a/d\n", ":g/./s/a/b/|d\n", ":g/^/m0\n", ":g/a/a\nZ\n.\n", ":g/a/normal x\n", ":xyzzy\n", ":1,2,3p\n", ":;;;\n", ":,,\n", ":1;+1p\n", ":'\n", ":/\n", ":?\n", ":/a/;/a/p\n",
+	":$a\nq a\nr a\ns\nt\n.\n", ":u|s/a/b/\n", ":u|p\n", ":u|>\n", ":redo|s/a/b/\n",
 	":x\n", ":wq\n", ":xa\n", "ZZ",
 };
 
@@ -42,6 +43,8 @@ static const char *ex_tokens[] = {
 	"se noai\n", "se ic\n", "se order=2\n", "se td=-2\n", "se lim=2\n", "se hist=3\n", "se xyz\n", "se\n", "se wa\n", "se aw\n", "cm fa\n", "cm\n", "ft c\n", "ft\n", "ta foo\n", "tn\n", "po\n", "tf\n",
 	"ec hello\n", "ec %\n", "ec #\n", "e %%%%\n", "e =x\n", "g/a/g/a/g/a/g/a/g/a/g/a/g/a/g/a/g/a/d\n", "g/./s/a/b/|d\n", "g/a/a\nZ\n.\n", "xyzzy\n", "1,2,3p\n", ";;;\n", ",,\n", "1;+1p\n", "'\n", "/\n", "?\n", "/a/;/a/p\n",
 	"/a/\n", "?a?\n", "//\n", "/a", "s/a/b", "s/a", "g/a/s//c/\n", "g/a/u\n", "g/a/e!\n", "g/a/b !\n", "1,$g/^/d\n", "g!/a/d\n", "\"comment\n", "|||\n", "1|2|3\n", "    d\n", ":::d\n",
+	/* undo / redo leave the current line where it was: commands without an address right after them */
+	"$a\nq a\nr a\ns\nt\n.\n", "u|s/a/b/\n", "u|p\n", "u|.=\n", "u|k a\n", "u|y\n", "u|>\n", "u|j\n", "u|&\n", "u|!tr a b\n", "u|@ a\n", "u|c\nz\n.\n", "redo|s/a/b/\n", "u|u|s/a/b/\n",
 };
 
 /* long command lines around the 512-byte limit (built at start-up) */
